@@ -103,13 +103,15 @@ func sockEnd(c net.Conn, r io.Reader) endpoint {
 // ---------------------------------------------------------------- one transfer
 
 type xferSpec struct {
-	Name      string `json:"name"`
-	TotalAB   int64  `json:"total_ab"`
-	TotalBA   int64  `json:"total_ba"`
-	Orderly   bool   `json:"orderly"`         // close only after everything expected was read (full-close endpoints in the path)
-	ReplyAft  bool   `json:"reply_after_eof"` // B starts writing only after it has read A's EOF (half-close-then-reply)
-	MaxChunk  int    `json:"max_chunk"`
-	FullClose bool   `json:"full_close"` // a TCP / Unix socket endpoint is in the path
+	Name      string  `json:"name"`
+	TotalAB   int64   `json:"total_ab"`
+	TotalBA   int64   `json:"total_ba"`
+	Orderly   bool    `json:"orderly"`         // close only after everything expected was read (full-close endpoints in the path)
+	ReplyAft  bool    `json:"reply_after_eof"` // B starts writing only after it has read A's EOF (half-close-then-reply)
+	MaxChunk  int     `json:"max_chunk"`
+	PaceAB    float64 `json:"pace_ab_s"` // >0: the A->B writer trickles its data over about this many seconds (long-lived stream)
+	pre       []ioLine
+	FullClose bool `json:"full_close"` // a TCP / Unix socket endpoint is in the path
 }
 
 type xferResult struct {
@@ -140,6 +142,9 @@ func runTransfer(lg *ioLog, sp xferSpec, a, b endpoint, seed int64, ceiling time
 		note = "full" // a full-close endpoint (TCP / Unix socket) is part of the path
 	}
 	lg.add(ioLine{Ev: "reset", Name: sp.Name, Note: note})
+	for _, l := range sp.pre {
+		lg.add(l)
+	}
 	t0 := time.Now()
 	var res xferResult
 	var mu sync.Mutex
@@ -161,8 +166,14 @@ func runTransfer(lg *ioLog, sp xferSpec, a, b endpoint, seed int64, ceiling time
 		var off int64
 		for off < total {
 			n := int64(chunkSize(rng, sp.MaxChunk))
+			if sp.PaceAB > 0 && dirName == "ab" && n > 2048 {
+				n = 2048
+			}
 			if n > total-off {
 				n = total - off
+			}
+			if sp.PaceAB > 0 && dirName == "ab" {
+				time.Sleep(time.Duration(sp.PaceAB * float64(n) / float64(total) * float64(time.Second)))
 			}
 			buf := make([]byte, n)
 			fillPattern(buf, dir, off)
@@ -432,6 +443,35 @@ func injectNotices(m *mesh.Mesh, lg *ioLog, rng *rand.Rand, via, dialNode, dialS
 	}()
 }
 
+// deadlineLines reads, right after Dial/Accept, the read deadline armed on each end's stream (verif accessor). The
+// application has set none: an armed deadline was left behind by the library and will fail every Read once it
+// passes ("accepted + 60 s"), long after a quick transfer has finished.
+func deadlineLines(d, a *netceptor.Conn) (lines []ioLine, sig, what, inconcl string) {
+	for _, e := range []struct {
+		c    *netceptor.Conn
+		dir  string
+		side string
+	}{{a, "ab", "accepting"}, {d, "ba", "dialling"}} {
+		if e.c == nil {
+			continue
+		}
+		t, ok := e.c.VerifReadDeadline()
+		note := "none"
+		switch {
+		case !ok:
+			note = "unknown"
+			inconcl = "the QUIC stream's read deadline cannot be inspected (layout changed)"
+		case !t.IsZero():
+			note = "armed"
+			sig = "accept:read-deadline-left-armed:" + e.side
+			what = fmt.Sprintf("the stream handed to the %s application has a read deadline armed that the application never set (%v from now): every Read fails with 'deadline exceeded' once it passes", e.side, time.Until(t).Round(time.Second))
+		}
+		lines = append(lines, ioLine{Ev: "accepted", Dir: e.dir, Note: note})
+	}
+
+	return lines, sig, what, inconcl
+}
+
 func svcOf(a net.Addr) string {
 	p := strings.SplitN(a.String(), ":", 2)
 	if len(p) == 2 {
@@ -500,6 +540,12 @@ func runDirect(o c03opts, tp topo, variant string, idx int64) scenarioOut {
 	case "oneway":
 		sp.TotalBA = 0
 	}
+	var dlSig, dlWhat string
+	sp.pre, dlSig, dlWhat, out.Inconcl = deadlineLines(d, a)
+	if variant == "longlived" {
+		// a stream still in use more than the 60 s accept timeout after it was accepted
+		sp.TotalAB, sp.TotalBA, sp.PaceAB = 192<<10, 4096, 66
+	}
 	out.Spec = sp
 	lg := &ioLog{}
 	via := tp.ids[len(tp.ids)/2]
@@ -535,7 +581,13 @@ func runDirect(o c03opts, tp topo, variant string, idx int64) scenarioOut {
 	r := runTransfer(lg, sp, meshEnd(d), meshEnd(a), o.seed*131+idx, o.ceiling)
 	_ = d.CloseConnection()
 	_ = a.CloseConnection()
-	out.Lines, out.Sig, out.What, out.Inconcl, out.Wall = lg.lines, r.sig, r.what, r.inconcl, r.wall.Seconds()
+	out.Lines, out.Sig, out.What, out.Wall = lg.lines, r.sig, r.what, r.wall.Seconds()
+	if r.inconcl != "" {
+		out.Inconcl = r.inconcl
+	}
+	if out.Sig == "" && dlSig != "" {
+		out.Sig, out.What = dlSig, dlWhat
+	}
 	out.Faults = faultCounters(m)
 	if tp.cut != "" {
 		cutAt, after := -1, 0
@@ -636,6 +688,8 @@ func runConnect(o c03opts, idx int64, variant string) scenarioOut {
 		// the full-close endpoint (Unix socket) is closed last, so nothing may be lost
 		sp.Orderly, sp.ReplyAft, sp.TotalAB, sp.FullClose = false, true, 1+rng.Int63n(65536), true
 	}
+	var dlSig, dlWhat, dlInc string
+	sp.pre, dlSig, dlWhat, dlInc = deadlineLines(nil, ac.(*netceptor.Conn))
 	out.Spec = sp
 	lg := &ioLog{}
 	injectNotices(m, lg, rand.New(rand.NewSource(rng.Int63())), "b", "a", svcOf(ac.RemoteAddr()), "c", "sink", stop)
@@ -643,6 +697,12 @@ func runConnect(o c03opts, idx int64, variant string) scenarioOut {
 	_ = uc.Close()
 	_ = ac.(*netceptor.Conn).CloseConnection()
 	out.Lines, out.Sig, out.What, out.Inconcl, out.Wall = lg.lines, r.sig, r.what, r.inconcl, r.wall.Seconds()
+	if out.Sig == "" && dlSig != "" {
+		out.Sig, out.What = dlSig, dlWhat
+	}
+	if out.Inconcl == "" {
+		out.Inconcl = dlInc
+	}
 	out.Faults = faultCounters(m)
 
 	return out
@@ -793,6 +853,8 @@ func cmdC03(args []string) {
 	addDirect("cut_endpoint", "bulk", o.total)
 	if *tier == "thorough" {
 		addDirect("cut_endpoint", "oneway", o.total)
+		addDirect("chain2", "longlived", o.total)
+		addDirect("chain1", "longlived", o.total)
 		addDirect("chain2", "bulk", 8<<20)
 		addDirect("chain4", "bulk", 2<<20)
 		addDirect("diamond", "bulk", 4<<20)
@@ -833,7 +895,7 @@ func cmdC03(args []string) {
 		}
 		if so.Sig != "" {
 			sig := "C03:" + strings.SplitN(so.Name, "/", 2)[0] + ":" + so.Sig
-			if strings.HasPrefix(so.Sig, "reroute:") {
+			if strings.HasPrefix(so.Sig, "reroute:") || strings.HasPrefix(so.Sig, "accept:") {
 				sig = "C03:" + so.Sig
 			}
 			res.violate(sig, so.Name+": "+so.What, map[string]any{"scenario": so.Name, "seed": *seed, "spec": so.Spec, "faults": so.Faults})
